@@ -14,6 +14,8 @@ import (
 	"sync"
 
 	li "github.com/corazawaf/libinjection-go"
+
+	"verif/harness/gen"
 )
 
 func crossPrefix(prefixes []string, units []scaleFam) []scaleFam {
@@ -81,8 +83,8 @@ func init() {
 	sqlDomain.scale, sqlDomain.scaleBase = sqlScale, sqlUnits
 	htmlDomain.scale, htmlDomain.scaleBase = htmlScale, htmlUnits
 	sqlDomain.aliasCases = sqlAliasCases
-	htmlDomain.extraCases = map[string]func() []string{"attrvals": htmlAttrValCases, "nsattrs": htmlNsAttrCases, "elements": htmlElementCases}
-	sqlDomain.extraCases = map[string]func() []string{"qualified": sqlQualifiedCases, "gluelit": sqlGlueLitCases, "encatk": sqlEncodedAttackCases, "dialect": sqlDialectCases, "prose": sqlProseCases}
+	htmlDomain.extraCases = map[string]func() []string{"attrvals": htmlAttrValCases, "nsattrs": htmlNsAttrCases, "elements": htmlElementCases, "doubled": func() []string { return doubledCases(gen.HTMLSeeds) }}
+	sqlDomain.extraCases = map[string]func() []string{"qualified": sqlQualifiedCases, "gluelit": sqlGlueLitCases, "encatk": sqlEncodedAttackCases, "dialect": sqlDialectCases, "prose": sqlProseCases, "doubled": func() []string { return doubledCases(gen.SQLSeeds) }}
 	htmlDomain.aliasCases = htmlAliasCases
 	sqlDomain.seamPairs = [][2]string{{"sp_password", " --"}, {"1", " --sp_password"}, {"", "' OR 1=1-- "}, {"1 ", "\" or 1=1 #"}, {"1 /*", "*/ union select 1"}, {"1", " union select 1,2"}, {"$$", "$$ or 1=1"}, {"x'", "' or 1=1"}, {"1 --", "\n or 1=1"}, {"1 or 1=1 -- ' or 1=1 -- \" union select 1 -- ", ""}, {"a' or 1=1 -- \" union select 1,2 -- ", " x"}}
 	sqlDomain.seamPads = []string{"a", " "}
@@ -473,4 +475,29 @@ func sqlProseCases() []string {
 		}
 	})
 	return proseList
+}
+
+var doubledMu sync.Mutex
+var doubledMemo = map[int][]string{}
+
+// doubledCases: every seed twice, joined the ways a parameter sent twice is
+// joined (comma, ampersand, nothing, blank, semicolon, line feed): a value made
+// of two identical halves must be read as what it is.
+func doubledCases(seeds []string) []string {
+	doubledMu.Lock()
+	defer doubledMu.Unlock()
+	if l, ok := doubledMemo[len(seeds)]; ok {
+		return l
+	}
+	var out []string
+	for _, s := range seeds {
+		if len(s) < 4 || len(s) > 120 {
+			continue
+		}
+		for _, j := range []string{",", "&", "", " ", ";", "\n", ", ", "&x="} {
+			out = append(out, s+j+s)
+		}
+	}
+	doubledMemo[len(seeds)] = out
+	return out
 }
